@@ -5,7 +5,8 @@
 # The scratch worktrees are removed afterwards. Nothing in /repo is touched.
 set -u
 cd /verif
-PROPS=$(python3 -c "import json;print(' '.join(c['property_id'] for c in json.load(open('MANIFEST.json'))['checks']))")
+PROPS=${MATRIX_PROPS:-$(python3 -c "import json;print(' '.join(c['property_id'] for c in json.load(open('MANIFEST.json'))['checks']))")}
+OUT=${MATRIX_OUT:-/verif/seeded/MATRIX.tsv}
 SEEDS="$@"
 [ -z "$SEEDS" ] && SEEDS=$(ls seeded | grep -v MATRIX)
 mkdir -p /tmp/mx
@@ -29,7 +30,7 @@ one() {
 export -f one
 export PROPS
 echo $SEEDS | tr ' ' '\n' | xargs -P 3 -I{} bash -c 'one {}' > /tmp/mx/MATRIX.tsv.new
-sort /tmp/mx/MATRIX.tsv.new > /verif/seeded/MATRIX.tsv
+sort /tmp/mx/MATRIX.tsv.new > $OUT
 rm -f /tmp/mx/MATRIX.tsv.new
 git -C /repo worktree prune
-echo done: $(wc -l < /verif/seeded/MATRIX.tsv) rows
+echo done: $(wc -l < $OUT) rows
